@@ -24,6 +24,7 @@ func init() {
 	vrt.Register("C04_helper_context_forms", HelperContextForms)
 	vrt.Register("C04_results_used_as_values", ResultsUsedAsValues)
 	vrt.Register("C04_container_changed_in_loop", ContainerChangedInLoop)
+	vrt.Register("C04_print_every_kind", PrintEveryKind)
 	vrt.Register("C04_helpers", Helpers)
 	vrt.Register("C04_helpers_iter", HelpersIter)
 	vrt.Register("C04_user_functions", UserFunctions)
@@ -63,6 +64,20 @@ type named2 string
 
 func (n named2) String() string { return string(n) }
 
+type stringerV struct{ s string }
+
+func (s stringerV) String() string { return s.s }
+
+type htmlerV struct{ s string }
+
+func (h htmlerV) HTML() template.HTML { return template.HTML(h.s) }
+
+type innerE struct{ X int }
+
+func (i innerE) Hello() string { return "hi" }
+
+type outerE struct{ *innerE }
+
 type failErr struct{}
 
 func (failErr) Error() string { return "fail" }
@@ -79,7 +94,7 @@ func (i *iter) Next() interface{} {
 	return i.n
 }
 
-const nKinds = 43
+const nKinds = 46
 
 // val: a value of kind k (payloads arbitrary where a payload can matter).
 func val(k int) interface{} {
@@ -172,8 +187,14 @@ func val(k int) interface{} {
 		return uint64(1) << 63
 	case 41:
 		return int16(-3)
-	default:
+	case 42:
 		return []fmt.Stringer{named2("s")} // a slice whose element type is an interface with methods
+	case 43:
+		return (*stringerV)(nil) // nil pointers to types whose String / HTML / Interface methods have value receivers
+	case 44:
+		return (*htmlerV)(nil)
+	default:
+		return outerE{} // a field promoted through an embedded pointer that is nil
 	}
 }
 
@@ -592,4 +613,13 @@ func ContainerChangedInLoop() {
 	in := "<%= " + loops[vrt.Choice(len(loops))] + " { %><% " + bodies[vrt.Choice(len(bodies))] + " %><%= k %>;<% } %>"
 	total(in, ctx)
 	vrt.MapOrderNondet(false)
+}
+
+// ---- every value kind written by an output tag, bare and inside the
+// containers the sink recurses into, and its promoted members reached
+func PrintEveryKind() {
+	ctx := plush.NewContext()
+	ctx.Set("a", val(vrt.Choice(nKinds)))
+	forms := []string{"a", "[a]", "[a, a]", "{k: a}[\"k\"]", "\"s\" + a", "a.X", "a.Hello()", "a.String()", "a.HTML()", "a.Interface()", "if (a) { %>t<% }", "a.innerE"}
+	total("<%= "+forms[vrt.Choice(len(forms))]+" %>", ctx)
 }
